@@ -22,7 +22,8 @@ from . import c08_world as W
 
 SPEC = tlc.SPECS / "queue"
 # several TLC processes run side by side: keep each JVM's helper threads few
-JVM_ENV = {"JAVA_TOOL_OPTIONS": "-XX:ParallelGCThreads=2 -XX:CICompilerCount=2"}
+# (-Xss: the trace spec folds long logs with recursive operators)
+JVM_ENV = {"JAVA_TOOL_OPTIONS": "-XX:ParallelGCThreads=2 -XX:CICompilerCount=2 -Xss256m"}
 INF = W.INF
 PIPE_INVS = ["InvPartition", "InvOnce", "InvLimit", "InvNoIdleWait", "InvNoLoss", "InvServerWithinLimit",
              "InvOrder", "InvCapacity"]
@@ -309,6 +310,9 @@ def classify(tr, verdict, pos, model_agrees=False):
         if not plain and fifo_like:
             # configured policy never consulted: the component behaves as an unbounded FIFO
             return "empty_policy_replaced_by_fifo"
+    if clause in ("conservation", "capacity", "reject_not_counted", "dropped_item_not_waiting", "order", "fair_share"):
+        # policy-level clause: name the policy whose bookkeeping / order fails
+        return f"{clause}:{tr['prm']['kind']}"
     return clause
 
 
@@ -330,7 +334,7 @@ def random_scenario(rng, k):
     """Scenario beyond the bounds of the model-checked configurations: more items, ticks, hops, limits,
     every policy, balking, forwarders that re-use the event object, set_limit calls, shift changes."""
     wk = "shifted" if k % 3 == 0 else "server"
-    kind = POLICY_KINDS[(k // 3) % len(POLICY_KINDS)] if k % 2 else rng.choice(("fifo", "fifo", "lifo", "prio"))
+    kind = ALL_KINDS[(k // 3) % len(ALL_KINDS)] if k % 2 else rng.choice(("fifo", "fifo", "lifo", "prio"))
     nf = rng.randint(1, 3) if kind in ("fair", "wfair") else 1
     n = rng.randint(2, 8)
     burst = rng.random() < 0.6
@@ -364,8 +368,62 @@ def random_scenario(rng, k):
                    W=Wt, **prm)
 
 
+ALL_KINDS = POLICY_KINDS + W.UNMODELLED
+
+
+def overload_policy_case(rng, kind):
+    """Sustained overload over simulated time on a bare policy: every tick 2-4 pushes against about one
+    pop, for 8-30 ticks (a standing queue: CoDel enters and stays in its dropping state, RED's average
+    climbs past its thresholds, AdaptiveLIFO stays congested), then the queue is drained over time."""
+    nf = rng.randint(2, 3) if kind in ("fair", "wfair") else 1
+    prm = dict(kind=kind, cap=rng.choice((INF, INF, 8, 20)), pfc=INF, mxf=INF, thr=INF, bm=0)
+    if kind == "fair":
+        prm["cap"] = INF
+    Wt = [rng.randint(1, 3) for _ in range(nf)] if kind == "wfair" else [1] * nf
+    ops = []
+    now = 0
+    for _ in range(rng.randint(8, 30)):
+        for _ in range(rng.randint(2, 4)):
+            ops.append(("psh", now + rng.randint(1, 6) if kind == "deadline" else rng.randint(0, 2), rng.randint(1, nf)))
+        for _ in range(rng.choice((0, 1, 1, 1, 2))):
+            ops.append(("pop",))
+        ops.append(("tick",))
+        now += 1
+    for _ in range(rng.randint(0, 12)):
+        ops.append(("pop",))
+        if rng.random() < 0.7:
+            ops.append(("tick",))
+    return prm, Wt, ops
+
+
+def overload_scenario(rng, kind):
+    """Server at 2-4x overload for clearly longer than CoDel's interval (2 ticks): limit 1-2, service 1-2
+    ticks, 2-4 arrivals per tick for 6-14 ticks."""
+    lim = rng.randint(1, 2)
+    svc = rng.randint(1, 2)
+    rate = rng.randint(2, 4) * lim
+    nf = rng.randint(2, 3) if kind in ("fair", "wfair") else 1
+    arr = []
+    for t in range(rng.randint(6, 14)):
+        for _ in range(max(1, rate // svc) if rng.random() < 0.8 else 1):
+            arr.append(dict(t=t, h=rng.choice((0, 0, 1)), s=svc, f=rng.randint(1, nf),
+                            p=(t + rng.randint(2, 8)) if kind == "deadline" else rng.randint(0, 2) if kind == "prio" else 0))
+    Wt = [rng.randint(1, 3) for _ in range(nf)] if kind == "wfair" else [1] * nf
+    return W.mk_sc(wk="server", lim=lim, kind=kind, cap=rng.choice((INF, INF, 10)), arr=arr, W=Wt)
+
+
+def raise_while_busy_scenario(rng):
+    """ShiftedServer: a shift adds workers while the old crew is busy and a backlog is queued."""
+    lim = rng.randint(1, 2)
+    svc = rng.randint(2, 4)
+    n = lim + rng.randint(1, 4)
+    arr = [dict(t=rng.choice((0, 0, 1)), h=rng.choice((0, 0, 1)), s=svc) for _ in range(n)]
+    return W.mk_sc(wk="shifted", lim=lim, arr=arr, sh=(rng.randint(1, svc), lim + rng.randint(1, 2)),
+                   kind=rng.choice(("fifo", "fifo", "lifo")))
+
+
 def random_policy_case(rng):
-    kind = rng.choice(POLICY_KINDS + ("codel", "red", "alifo") if rng.random() < 0.3 else POLICY_KINDS)
+    kind = rng.choice(ALL_KINDS if rng.random() < 0.3 else POLICY_KINDS)
     nf = rng.randint(1, 4) if kind in ("fair", "wfair") else 1
     prm = dict(kind=kind, cap=rng.choice((1, 2, 3, 5, INF, INF)), pfc=INF, mxf=INF, thr=INF, bm=0)
     if kind == "fair":
@@ -508,6 +566,25 @@ def real_runs(chk, tier, rng, jobs, ascode):
         sd = rng.randrange(10 ** 6)
         tr, _ = W.run_policy_ops(prm, Wt, ops, seed=sd)
         add(tr, "random-policy", ["policy", prm, Wt, ops, sd])
+    # sustained overload over simulated time: bare policies with a clock, and Server pipelines
+    n_ov = 4 if quick else 40
+    for k in range(n_ov * len(ALL_KINDS)):
+        kind = ALL_KINDS[k % len(ALL_KINDS)]
+        prm, Wt, ops = overload_policy_case(rng, kind)
+        sd = rng.randrange(10 ** 6)
+        tr, _ = W.run_policy_ops(prm, Wt, ops, seed=sd)
+        add(tr, "overload-policy", ["policy", prm, Wt, ops, sd])
+    n_ovp = 2 if quick else 20
+    for k in range(n_ovp * len(ALL_KINDS)):
+        kind = ALL_KINDS[k % len(ALL_KINDS)]
+        sc = overload_scenario(rng, kind)
+        sd = rng.randrange(10 ** 6)
+        tr, err = W.run_scenario(sc, seed=sd)
+        add(tr, "overload-pipeline", ["scenario", sc, 10 ** 9, None, sd, None], err)
+    for k in range(20 if quick else 300):
+        sc = raise_while_busy_scenario(rng)
+        tr, err = W.run_scenario(sc)
+        add(tr, "shift-raise-while-busy", ["scenario", sc, 10 ** 9, None, 0, None], err)
     n_topo = 50 if quick else 600
     for k in range(n_topo):
         sd = rng.randrange(10 ** 9)
